@@ -32,6 +32,9 @@ type forExpander struct {
 type forStateFn func(f *forExpander) forStateFn
 
 func newForExpander(lex tokenReader, symbols map[string][]token) *forExpander {
+	if symbols == nil {
+		symbols = make(map[string][]token)
+	}
 	f := &forExpander{lex: lex, symbols: symbols}
 	f.next()
 	f.tokens = make(chan token)
@@ -137,6 +140,15 @@ func forConsumeLabels(f *forExpander) forStateFn {
 				f.next()
 				f.exprBuf = make([]token, 0)
 				return forConsumeExpression
+			} else if opLower == "equ" {
+				return forEquLine
+			} else if opLower == "end" {
+				// nothing after END belongs to the program
+				for _, label := range f.labelBuf {
+					f.tokens <- token{tokText, label}
+				}
+				f.labelBuf = make([]string, 0)
+				return forEmitConsumeStream
 			} else {
 				return forWriteLabelsEmitConsumeLine
 			}
@@ -171,6 +183,35 @@ func forWriteLabelsEmitConsumeLine(f *forExpander) forStateFn {
 	}
 	f.labelBuf = make([]string, 0)
 	return f.emitConsume(forConsumeEmitLine)
+}
+
+// forEquLine passes an EQU line through like any other line and records its
+// value, so that the counts of the FOR blocks that follow can use it
+func forEquLine(f *forExpander) forStateFn {
+	labels := f.labelBuf
+	for _, label := range labels {
+		f.tokens <- token{tokText, label}
+	}
+	f.labelBuf = make([]string, 0)
+
+	// the equ token itself
+	f.tokens <- f.nextToken
+	f.next()
+
+	value := make([]token, 0)
+	for f.nextToken.typ != tokNewline && f.nextToken.typ != tokEOF && f.nextToken.typ != tokError {
+		if f.nextToken.typ != tokComment {
+			value = append(value, f.nextToken)
+		}
+		f.tokens <- f.nextToken
+		f.next()
+	}
+	for _, label := range labels {
+		if _, ok := f.symbols[label]; !ok {
+			f.symbols[label] = value
+		}
+	}
+	return forConsumeEmitLine
 }
 
 // forConsumeEmitLine consumes and emits tokens until a newline is reached
@@ -372,7 +413,9 @@ func forRof(f *forExpander) forStateFn {
 		}
 	}
 
-	return forEmitConsumeStream
+	// carry on with the lines after the block: every outermost block of the
+	// input is expanded in this pass
+	return forLine
 }
 
 func forEmitConsumeStream(f *forExpander) forStateFn {
